@@ -34,7 +34,7 @@ ASSUMPTIONS = [
 ]
 PROFILE = {
     "quick": dict(examples=3500, shards=16, budget_s=80),
-    "thorough": dict(examples=8000, shards=16, budget_s=1100),
+    "thorough": dict(examples=40000, shards=16, budget_s=1100),
 }
 
 poolreg.check_registry_complete()
